@@ -763,7 +763,7 @@ def generate(prop, verif_seed, idx, tier="quick", cls=None, recover=False):
         mgr = g.randrange(n_mgr)
         n = g.randint(1, min(6, len(pool) + 2))
         big = False
-        if cls == "par" and prop == "C13" and g.random() < 0.04:
+        if cls in ("par", "stall") and prop == "C13" and g.random() < (0.04 if cls == "par" else 0.08):
             # a batch larger than any plausible worker-pool / wave size
             big = True
             extra_q = []
